@@ -31,6 +31,16 @@ var engineAssumptions = []string{
 
 var checks = []Check{
 	{
+		ID: "C16", Title: "discovery subscriptions track dependencies and survive stream failures", Level: "model_checking",
+		LevelText: "stateless exploration of all schedules within bounds of the real subscription client (Run with its sender loop, the receiver it spawns, one caller, a fault thread breaking the stream) over a scripted stream factory: every Subscribe/Unsubscribe sequence of length <= 4 over three names, 17-20 distinct Subscribes against the 16-entry queues, queues shrunk to 2; stream creation and Send failing as environment choices; virtual retry timers",
+		Technique: "preemption/delay-bounded stateless schedule exploration of the real goroutines with environment-fault choices",
+		Assumptions: append([]string{"scripted stream with gRPC's send/recv failure coupling (a failed Send breaks the stream, Recv then fails); real gRPC streams are outside the model", "one caller thread (the dependency stream's hook is the only caller in the product)"}, engineAssumptions...),
+		Jobs: []Job{
+			{Pkg: "config", Scenarios: []string{"C16/short"}, Shards: 16, QuickS: 80, ThoroughS: 600},
+			{Pkg: "config", Scenarios: []string{"C16/many", "C16/smallqueue"}, Shards: 16, QuickS: 80, ThoroughS: 600},
+		},
+	},
+	{
 		ID: "C06", Title: "TCP: connections go only to current healthy hosts, per the balancing policy", Level: "model_checking",
 		LevelText: "all schedules (P<=3/4, delays unbounded) of 2-3 threads picking n*k times from 1-3 hosts through the real round-robin balancer; every random outcome and every connection-count assignment for random and least-connection; every history up to depth 3/4 of add / remove (fresh host objects, as the controller builds them) / replace / health marks / connect / disconnect on the real TCP processor under the three policies with every random outcome; a connection arrival racing a membership or health change under all schedules within bounds",
 		Technique: "preemption-bounded schedule exploration + exhaustive history enumeration on the real TCP processor under a controlled scheduler",
